@@ -238,7 +238,23 @@ def run(chk, model_ok=True):
         if s.deferred and not sessions.discovery_flow(s):
             fail(f"{s.label}: discovery / set_keys flow failed: {[r['result'] for r in s.records if r['kind'] != 'send'][-2:]}", s.line())
             continue
-        for _ in range(2):
+        for step in range(3):
+            if step == 2:
+                # a re-keying attempt with material that is refused (empty privacy / authentication password, localized key of
+                # the wrong size): it must raise and leave the working keys in place
+                kw_ok = e2e.client_kwargs(stt)
+                bad_kw = dict(kw_ok)
+                which = rng.choice(["priv-empty", "auth-empty", "auth-size"] if priv else ["auth-empty", "auth-size"])
+                if which == "priv-empty":
+                    bad_kw.update(priv_alg=stt.priv_alg, priv_key=b"")
+                elif which == "auth-empty":
+                    bad_kw.update(auth_alg=stt.auth_alg, auth_key=b"")
+                else:
+                    bad_kw.update(auth_alg=stt.auth_alg | 128, auth_key=bytes(7))
+                rk = s.set_keys(stt, raw_kw=bad_kw)
+                if rk[0] == "ok":
+                    fail(f"{s.label}: set_keys accepted refused key material ({which})", s.line())
+                    break
             rec = s.send("get", sessions.rand_oid_text(rng))
             if rec["result"][0] != "ok":
                 fail(f"{s.label}: valid v3 session cannot send: {rec['result']}", s.line())
